@@ -15,3 +15,4 @@ pub mod analyze;
 pub mod hist;
 pub mod checks;
 pub mod c17;
+pub mod c15;
